@@ -357,6 +357,7 @@ type backendSet struct {
 	backends []gostatsd.Backend
 	cwMu     sync.Mutex
 	cwSizes  []int
+	broken   []bool
 	cancel   context.CancelFunc
 	ctx      context.Context
 }
@@ -425,6 +426,7 @@ func (x *infra) build(in input) (*backendSet, error) {
 	})
 	bs.names = append(bs.names, "cloudwatch")
 	bs.backends = append(bs.backends, cw)
+	bs.broken = make([]bool, len(bs.backends))
 	bs.ctx, bs.cancel = context.WithCancel(context.Background())
 	for _, b := range bs.backends {
 		if rn, ok := b.(gostatsd.Runner); ok {
@@ -595,19 +597,35 @@ func runHist(x *infra, em *hlib.Emitter, in input) {
 				})
 				// MetricFlusher.sendMetricsAsync: the aggregator's own map goes to every backend
 				for bi, b := range bs.backends {
+					if bs.broken[bi] {
+						continue // it panicked earlier in this case: its buffers / semaphores are in an unknown state
+					}
 					done := make(chan struct{})
 					var once sync.Once
-					msg := hlib.Recover(func() {
-						b.SendMetricsAsync(bs.ctx, m, func([]error) { once.Do(func() { close(done) }) })
-					})
+					ret := make(chan string, 1)
+					go func() {
+						ret <- hlib.Recover(func() {
+							b.SendMetricsAsync(bs.ctx, m, func([]error) { once.Do(func() { close(done) }) })
+						})
+					}()
+					var msg string
+					select {
+					case msg = <-ret:
+					case <-time.After(60 * time.Second):
+						c.Monitors = append(c.Monitors, fmt.Sprintf("op %d: %s SendMetricsAsync did not return within 60s", oi, bs.names[bi]))
+						bs.broken[bi] = true
+						continue
+					}
 					if msg != "" {
 						c.Monitors = append(c.Monitors, fmt.Sprintf("op %d: %s SendMetricsAsync panicked: %s", oi, bs.names[bi], msg))
+						bs.broken[bi] = true
 						continue
 					}
 					select {
 					case <-done:
 					case <-time.After(60 * time.Second):
 						c.Monitors = append(c.Monitors, fmt.Sprintf("op %d: %s never called back within 60s", oi, bs.names[bi]))
+						bs.broken[bi] = true
 					}
 					if bs.names[bi] == "otlp" {
 						otlpPosts = atomic.LoadInt64(&x.otlpReqs)
